@@ -1,5 +1,5 @@
 use crate::event::EventAction;
-use crate::sync::RwLock;
+use crate::sync::{Mutex, RwLock};
 use crate::{
     ActError, Error, NodeKind, ProcInfo, Result, ShareLock, Vars, Workflow, data,
     event::Action,
@@ -25,6 +25,8 @@ pub struct Process {
     timestamp: i64,
     env: ShareLock<Vars>,
     runtime: Arc<Runtime>,
+    // serializes the task executions, actions and ticks of the process
+    sync: Arc<Mutex<()>>,
 }
 
 impl fmt::Debug for Process {
@@ -56,12 +58,17 @@ impl Process {
             start_time: Arc::new(RwLock::new(0)),
             end_time: Arc::new(RwLock::new(0)),
             tasks: Arc::new(RwLock::new(TaskTree::new())),
-            // sync: Arc::new(std::sync::Mutex::new(0)),
             timestamp,
             env: Arc::new(RwLock::new(Vars::new())),
             err: Arc::new(RwLock::new(None)),
             runtime: rt.clone(),
+            sync: Arc::new(Mutex::new(())),
         })
+    }
+
+    /// locks the process to run a task, an action or a tick exclusively
+    pub(crate) fn lock(&self) -> std::sync::MutexGuard<'_, ()> {
+        self.sync.lock().unwrap_or_else(|err| err.into_inner())
     }
 
     pub fn data(&self) -> Vars {
@@ -254,6 +261,7 @@ impl Process {
     }
 
     pub(crate) fn do_tick(&self) {
+        let _lock = self.lock();
         self.find_tasks(|t| t.hooks().contains_key(&TaskLifeCycle::Timeout))
             .iter()
             .for_each(|t| {
@@ -267,6 +275,7 @@ impl Process {
 
     #[instrument()]
     pub fn do_action(self: &Arc<Self>, action: &Action) -> Result<()> {
+        let _lock = self.lock();
         let mut action = action.clone();
         let task = self.task(&action.tid).ok_or(ActError::Action(format!(
             "cannot find task by '{}' tasks={:?}",
